@@ -10,14 +10,18 @@ def sym(tier):
 
 def concrete(tier, progs=PROGS, cfgs=None):
     T = []
-    cfgs = cfgs or mpinst.configs(tier)
+    # concrete runs are cheap (about 1 s per program with 7 parties): the quick tier also includes (6,2) and (7,3), the only configurations in which
+    # comb(m,t) exceeds t+1 by more than the head room of the fields (mask bounds of PRSS-based randomness)
+    cfgs = cfgs or (mpinst.configs(tier) + ([(6, 2), (7, 3)] if tier == 'quick' else []))
     seeds = list(range(1, 3 if tier == 'quick' else 9))
     for m, t in cfgs:
         for np_ in (False, True):
             for pn in progs:
                 l = 12 if pn == 'gcd_ops' else 8
                 sd = seeds
-                if pn == 'gcd_ops' and m >= 6: sd = seeds[:2]          # ~100 s per seed with 7 parties (450 000 messages): two seeds fit the task limit
+                if pn == 'gcd_ops' and m >= 6:
+                    if tier == 'quick': continue
+                    sd = seeds[:2]          # ~100 s per seed with 7 parties (450 000 messages): two seeds fit the task limit
                 T.append(('sx.mpinst', 'concrete_program', (m, t, np_, pn, l, 30, sd)))
     return T
 
